@@ -49,6 +49,18 @@ class BatchResults:
         """
         return self._data[name]
 
+    def add_output(self, name: str):
+        """
+        Register an output, so it is present (and empty) even if no result is
+        ever added to it.
+
+        Args:
+            name:
+                The output name.
+        """
+        if name not in self._data:
+            self._data[name] = ItemListCollection(self._key_schema)
+
     def add_result(self, name: str, key: GenericKey, result: object):
         """
         Add a single result for one of the outputs.
@@ -62,8 +74,7 @@ class BatchResults:
                 The result object to save.
         """
 
-        if name not in self._data:
-            self._data[name] = ItemListCollection(self._key_schema)
+        self.add_output(name)
 
         try:
             self._data[name].add(result, *key)
